@@ -180,6 +180,20 @@ func (*c03) Gen(rng *RNG, tier string) []Case {
 			"mem getblob " + tok("a") + " " + tok(sha256Digest([]byte(big))),
 		}}))
 	}
+	// F43: a descriptor that describes a proper PREFIX of what the reader yields, the reader being of unknown length:
+	// net/http sends the declared bytes, then notices the surplus and fails the call - but the registry has by then
+	// stored the prefix (which does hash to the declared digest). Directly the push is refused and nothing is stored.
+	{
+		hello := []byte("hello")
+		cases = append(cases, Case{Tag: "prefix-descriptor", Lines: []string{
+			"wire init 0 1 0000 0 0",
+			linePushBlob("a", "application/octet-stream", sha256Digest([]byte("seed")), 4, []byte("seed")),
+			linePushBlob("a", "application/octet-stream", sha256Digest(hello), 5, []byte("hello world")),
+			linePushBlob("a", "application/octet-stream", sha256Digest(hello), 5, []byte("hello world")),
+			"mem resolveblob " + tok("a") + " " + tok(sha256Digest(hello)),
+			"mem getblob " + tok("a") + " " + tok(sha256Digest(hello)),
+		}})
+	}
 	// multi-megabyte manifests (no size is too large to carry): on their own, the model sits these out
 	for _, size := range []int{4<<20 - 1, 4 << 20, 4<<20 + 1, 6 << 20} {
 		cases = append(cases, Case{Tag: "huge-manifest", Lines: []string{
@@ -368,6 +382,13 @@ func wireOracle(c Case, a, b []string) []Failure {
 			o0, _ := strconv.ParseInt(t[4], 10, 64)
 			o1, _ := strconv.ParseInt(t[5], 10, 64)
 			emptyRange = o0 == o1
+		}
+		if c.Tag == "prefix-descriptor" && i >= 2 {
+			// judged as a whole: the push is refused on both sides, and afterwards nothing is there on either side
+			if strings.HasPrefix(da, "err") != strings.HasPrefix(sb, "err") {
+				fail("wire-rejected-push-left-prefix", "wire_transparent(outcome)")
+			}
+			continue
 		}
 		if sb == "panic" {
 			fail("wire-panic:"+t[1], "no_panic")
